@@ -441,8 +441,126 @@ def _inline_in_block(block: List[ast.stmt], fn: ast.FunctionDef,
     return done
 
 
+class _CanonicalIf(ast.NodeTransformer):
+    """`if not T: A else: B`  ->  `if T: B else: A` (plain `else` only, no
+    `elif` on either side being created or destroyed): which arm is written
+    first is a matter of taste and maintainers flip it freely (guard
+    clauses), so the rules are shown one spelling."""
+
+    def __init__(self, compares: bool) -> None:
+        self.compares = compares
+        self.count = 0
+
+    def visit_If(self, node: ast.If) -> ast.AST:
+        self.generic_visit(node)
+        if not node.orelse:
+            return node
+        t = node.test
+        chain = (len(node.orelse) == 1 and
+                 isinstance(node.orelse[0], ast.If)) or \
+            (len(node.body) == 1 and isinstance(node.body[0], ast.If))
+        if chain and not (isinstance(t, ast.UnaryOp) and
+                          isinstance(t.op, ast.Not)):
+            return node     # leave `elif` chains with positive tests alone
+        if isinstance(t, ast.UnaryOp) and isinstance(t.op, ast.Not):
+            node.test = t.operand
+            node.body, node.orelse = node.orelse, node.body
+            self.count += 1
+        elif self.compares and isinstance(t, ast.Compare) and \
+                len(t.ops) == 1 and isinstance(
+                    t.ops[0], (ast.NotIn, ast.IsNot, ast.NotEq)):
+            t.ops = [{ast.NotIn: ast.In, ast.IsNot: ast.Is,
+                      ast.NotEq: ast.Eq}[type(t.ops[0])]()]
+            node.body, node.orelse = node.orelse, node.body
+            self.count += 1
+        return node
+
+
+def _terminates(body: List[ast.stmt]) -> bool:
+    return bool(body) and isinstance(
+        body[-1], (ast.Return, ast.Raise, ast.Continue, ast.Break))
+
+
+class _CanonicalBlocks(ast.NodeTransformer):
+    """Two more spellings of one program, each reduced to one form:
+
+    * `if c: ...; return|raise|continue|break` + `else: B` (plain else)
+      ->  the `if` followed by B;
+    * `t = <expr>` directly followed by `return t`, where `t` occurs
+      nowhere else in the function  ->  `return <expr>`."""
+
+    def __init__(self, drop_else: bool, ret_temp: bool) -> None:
+        self.drop_else = drop_else
+        self.ret_temp = ret_temp
+        self.count = 0
+        self._captured: Set[str] = set()
+
+    def visit_FunctionDef(self, node: ast.FunctionDef) -> ast.AST:
+        saved = self._captured
+        # names that a nested scope may see, or that live outside
+        cap: Set[str] = set()
+        for n in ast.walk(node):
+            if isinstance(n, (ast.Global, ast.Nonlocal)):
+                cap |= set(n.names)
+            if n is not node and isinstance(
+                    n, (ast.FunctionDef, ast.AsyncFunctionDef, ast.Lambda,
+                        ast.ClassDef)):
+                cap |= {x.id for x in ast.walk(n) if isinstance(x, ast.Name)}
+        self._captured = cap
+        self.generic_visit(node)
+        self._captured = saved
+        return node
+
+    def _block(self, stmts: List[ast.stmt]) -> List[ast.stmt]:
+        out: List[ast.stmt] = []
+        for st in stmts:
+            if self.drop_else and isinstance(st, ast.If) and st.orelse and \
+                    _terminates(st.body) and not (
+                        len(st.orelse) == 1 and
+                        isinstance(st.orelse[0], ast.If)):
+                tail = st.orelse
+                st.orelse = []
+                out.append(st)
+                out.extend(tail)
+                self.count += 1
+                continue
+            if self.ret_temp and isinstance(st, ast.Return) and \
+                    isinstance(st.value, ast.Name) and out and \
+                    isinstance(out[-1], ast.Assign) and \
+                    len(out[-1].targets) == 1 and \
+                    isinstance(out[-1].targets[0], ast.Name) and \
+                    out[-1].targets[0].id == st.value.id and \
+                    st.value.id not in self._captured:
+                prev = out.pop()
+                out.append(ast.copy_location(
+                    ast.Return(value=prev.value), prev))
+                self.count += 1
+                continue
+            out.append(st)
+        return out
+
+    def generic_visit(self, node: ast.AST) -> ast.AST:
+        super().generic_visit(node)
+        for field in ("body", "orelse", "finalbody"):
+            val = getattr(node, field, None)
+            if isinstance(val, list) and val and \
+                    isinstance(val[0], ast.stmt):
+                setattr(node, field, self._block(val))
+        if isinstance(node, ast.Try):
+            for h in node.handlers:
+                h.body = self._block(h.body)
+        return node
+
+
 def normalise(relpath: str, tree: ast.Module) -> List[str]:
     """Inline unknown private helpers of ``tree`` in place; returns a log."""
+    mode = os.environ.get("VERIF_CANON_IF", "2")
+    if mode != "0":
+        c = _CanonicalIf(mode == "2")
+        c.visit(tree)
+    bmode = os.environ.get("VERIF_CANON_BLOCKS", "et")
+    if bmode != "0":
+        _CanonicalBlocks("e" in bmode, "t" in bmode).visit(tree)
     known = inventory().get(relpath)
     if known is None:
         return []
